@@ -27,11 +27,13 @@ CHECKS = {
             "relation EqualShifted and its harness protocol (a NEW real twin after every reported drift, offset = items seen so far) validates "
             "whole-history runs of DDM, EDDM, STEPD, PageHinkley, CUSUM, KdqTreeStreaming, KdqTreeBatch, HDDDM, CDBD, NNDVI against fresh real twins "
             "per epoch under one numpy seed per step: state, counters, recs (shifted), every numeric public output; plus set_reference at an "
-            "arbitrary point (after a drift and in a quiet epoch) against a new detector on that reference.",
+            "arbitrary point (after a drift and in a quiet epoch) against a new detector on that reference; and long runs fed from ONE caller buffer "
+            "refilled in place (the twins get snapshots).",
             TRUST + "the documented carry-over is supplied to the twin by the harness.",
             PROD + " + TLC model checking of restarted twins", "5/C02"),
     "C15": ("Ownership.tla is the protocol model (caller buffers with versions, callee Copy vs the deviation Alias; TLC: without Alias no output "
-            "ever diverges, with Alias every divergence stems from a live reference). Code level: for all 14 update/set_reference detectors and the 8 "
+            "ever diverges, with Alias every divergence stems from a live reference). Code level: for all 14 update/set_reference detectors (set_reference also in the middle of the history), for MD3 "
+            "(reference frame, samples and labelled samples; overwritten after the call or one reused row frame per kind) and the 8 "
             "injectors a private-copy run is compared (Product / Equal) with a run in which the caller's arrays / DataFrames (C order, F order, strided "
             "view, single- and mixed-dtype DataFrame) are overwritten with garbage after EVERY call; the harness also digests the caller's objects "
             "before / after each call, checks injector results are new objects of the same type sharing no memory, and dict arguments unchanged.",
@@ -104,7 +106,9 @@ CHECKS = {
             "with/without reset: partition, no small node split, children sums, leaf totals, counts = routing, refill reproduces build counts, "
             "distributions sum to 1, KL >= 0 and 0 for equal counts, flattened view well-formed. Conformance: every multiset of <= 3/4 grid points "
             "and random sessions (1-4 dims, duplicates, clusters, up to 400 points, fills/resets/queries) run on the real KDQTreePartitioner; after "
-            "every call TLC compares the whole public tree node by node, leaf counts, kl_distance, plotly rows and KSS values.",
+            "every call TLC compares the whole public tree node by node, leaf counts, kl_distance, plotly rows and KSS values; partitioner objects "
+            "that build 2-4 times (model action Rebuild, action property FreshLeaves); relational refill traces on decimal, continuous, longdouble "
+            "and last-place-adjacent samples.",
             TRUST + "integer-valued data; scipy.stats.entropy is compared numerically (1e-7).",
             "TLA+ spec + TLC model checking + TLC trace validation of recorded executions", "5/C08"),
     "C09": ("KdqDetector.tla puts the streaming (reference window, silent test window, in-a-row persistence run, restart) and batch (reference, "
